@@ -235,7 +235,7 @@ func init() {
 		Technique:   "bounded-exhaustive input enumeration (line sequences) on the implementation, differential against a reference key-file parser",
 		Rule:        "enumerate files as line sequences; oracle: exactly one key per non-blank non-comment line in order, or an error naming the first offending line; never keys with an error; no 8-character window of key material in error text. distinct_nontrivial counts distinct accepted files.",
 		Assumptions: commonAssume,
-		Runs:        []Run{{Pkg: hp + "c18", Variant: "real"}, {Pkg: "cmd/age", Variant: "mainhook", Optional: true, Env: []string{"VERIF_HARNESS=c18cli", "VERIF_PROPERTY=C18"}}},
+		Runs:        []Run{{Pkg: hp + "c18", Variant: "real"}, {Pkg: "cmd/age", Variant: "mainhook+scryptrec", Optional: true, Env: []string{"VERIF_HARNESS=c18cli", "VERIF_PROPERTY=C18"}}},
 	}
 }
 
@@ -300,6 +300,6 @@ func init() {
 		Technique:   "bounded-exhaustive mutation enumeration on the implementation with invariant oracles (no panic, value xor error, read budget, work bound, error type)",
 		Rule:        "enumerate every edit in the stated families; invariant oracles per entry point; distinct_nontrivial counts distinct mutated inputs.",
 		Assumptions: commonAssume,
-		Runs:        []Run{{Pkg: hp + "c14", Variant: "scryptrec"}},
+		Runs:        []Run{{Pkg: hp + "c14", Variant: "scryptrec", NeedBins: []NeedBin{{Env: "VERIF_PLUGINSIM", Variant: "real", Pkg: "internal/zzverif/pluginsim"}}}},
 	}
 }
